@@ -12,9 +12,9 @@ git -C /repo worktree prune
 git -C /repo worktree add -q --detach $SCR/repo HEAD || exit 1
 rsync -a --exclude harness/target --exclude replays --exclude .git /verif/ $SCR/verif/
 sed -i "s#path = \"/repo\"#path = \"$SCR/repo\"#" $SCR/verif/harness/Cargo.toml
-export CARGO_NET_OFFLINE=true VERIF_DIR=$SCR/verif
+export CARGO_NET_OFFLINE=true VERIF_DIR=$SCR/verif VERIF_THREADS=${VERIF_THREADS:-16}
 cd $SCR/verif/harness && cargo build --release --offline >$SCR/build0.log 2>&1 || { echo "scratch build failed"; tail $SCR/build0.log; exit 2; }
-OUT=/verif/seeded/RESULTS.tsv
+OUT=${OUT:-/verif/seeded/RESULTS.tsv}   # several instances (different SCR) must use different OUT files; merge with tools/merge_results.py
 [ $# -gt 0 ] && seeds="$@" || seeds=$(ls /verif/seeded | grep '^C[0-9]*-[0-9]*$')
 [ -f $OUT ] || echo -e "seed\tcheck\texit\tnew_violation_keys" > $OUT
 # baseline on the unchanged scratch tree: every check must exit 0
@@ -35,6 +35,11 @@ for s in $seeds; do
     echo -e "$s\t$c\t$rc\t$n: $keys" >> $OUT
   done
   owner=${s%-*}
+  if [ "$(grep -P "^$s\t$owner\t" $OUT | cut -f3)" != "1" ]; then
+    timeout 1800 $SCR/verif/harness/target/release/vcheck $owner thorough >$SCR/$s.$owner.thorough.log 2>&1; rc=$?
+    keys=$(grep '^VIOLATION' $SCR/$s.$owner.thorough.log | sed 's/.*key=\([^ ]*\).*/\1/' | head -4 | tr '\n' ' ')
+    echo -e "$s\t$owner:thorough\t$rc\t$(grep -c '^VIOLATION' $SCR/$s.$owner.thorough.log): $keys" >> $OUT
+  fi
   echo "$s: owner $owner -> $(grep -P "^$s\t$owner\t" $OUT | cut -f3,4 | cut -c1-150) | caught by: $(grep -P "^$s\t" $OUT | awk -F'\t' '$3==1{print $2}' | tr '\n' ' ')"
 done
 cd /; git -C /repo worktree remove --force $SCR/repo; rm -rf $SCR/verif/harness/target
